@@ -15,8 +15,10 @@ package vsched
 
 import (
 	"fmt"
+	"os"
 	"runtime"
 	"sync"
+	"time"
 
 	"verif/engine/mc"
 )
@@ -113,11 +115,51 @@ func Run(ch *mc.Chooser, opt Options, bodies ...func()) *Sched {
 	} else {
 		s.handTo(next)
 	}
+	stopWatchdog := s.startWatchdog()
 	s.waitFinished()
 	s.wg.Wait() // a real happens-before edge from every thread's end to the caller
+	stopWatchdog()
 	active = nil
 	return s
 }
+
+// startWatchdog guards against a thread that blocks on a primitive the scheduler does not
+// control while it holds the run token (the execution would hang forever): if no scheduling
+// point is passed for StallTimeout of wall-clock time, all goroutine stacks are dumped and
+// the process exits with status 2 (harness error — never a verdict about the property).
+//
+//go:norace
+func (s *Sched) startWatchdog() func() {
+	if StallTimeout <= 0 {
+		return func() {}
+	}
+	stop := make(chan struct{})
+	go func() {
+		last := -1
+		for {
+			select {
+			case <-stop:
+				return
+			case <-time.After(StallTimeout):
+			}
+			cur := s.progress()
+			if cur == last {
+				buf := make([]byte, 1<<20)
+				n := runtime.Stack(buf, true)
+				fmt.Fprintf(os.Stderr, "HARNESS-ERROR: vsched stalled for %v at scheduling point %d (a thread blocks on an unscheduled primitive while holding the run token)\n%s\n", StallTimeout, cur, buf[:n])
+				os.Exit(2)
+			}
+			last = cur
+		}
+	}()
+	return func() { close(stop) }
+}
+
+//go:norace
+func (s *Sched) progress() int { return s.Steps }
+
+// StallTimeout is the watchdog period (0 disables it).
+var StallTimeout = 120 * time.Second
 
 //go:norace
 func (s *Sched) waitFinished() {
